@@ -19,6 +19,7 @@ func init() {
 			"(F3) where both sides are nil/untracked, and where one-way-safe untracks beta-only content, a nil-New ancestor change at `path` is recorded exactly when the ancestor is non-nil; " +
 			"(F4) child paths are formed with Joinable(path) whenever the ancestor, alpha or beta has contents, so ancestor changes for nested paths land at the nested path; " +
 			"(F6–F8, shared with C01.R1/R2/R6) every change the bidirectional handler plans for a side installs the OTHER side's synchronizable() content (never the unfiltered subtree) at `path`, under the overwrite guard; " +
+			"(F9, shared with C03.R5) Entry.synchronizable keeps, for each child, the child's own synchronizable() image (not the child itself), so no unsynchronizable content at any depth is planned and then found again by the next cycle; " +
 			"(F5) core.Apply applies every change of the list it is given — no way through an iteration of its loop is without effect (no «already equal» shortcut), insertions are copies of change.New into Apply's own copy of the tree, and a tree pointer carried across iterations is re-derived when the root is replaced. " +
 			"Not decided: Reconcile(Apply(plan)) plans nothing; convergence of endpoints; anything about real sessions.",
 		Assumptions: []string{"see C01/C05/C06 for the shared rules"},
@@ -56,6 +57,13 @@ func runC04(c *eng.Ctx) {
 	// F6/F7: what is planned for a side is the other side's synchronizable
 	// content, and only where that side may be overwritten (shared with C01).
 	c01Planner(c, "F6", "F7", "F8")
+
+	// F9 (shared with C03.R5/C05.R7): synchronizable() — the New value of every
+	// planned change — filters at every depth. An unfiltered grandchild that is
+	// applied exactly makes the next Reconcile plan its removal from the
+	// ancestor: not a fixpoint.
+	kinds, _ := c.P.ConstsOfType(corePkg, "EntryKind")
+	c03Synchronizable(c, "F9", kinds)
 
 	// F2/F3: ancestor emissions in reconcile.
 	nBoth, nNil := 0, 0
